@@ -218,6 +218,13 @@ def gen_program(rng, feat):
             for i, it in enumerate(f["body"]):
                 if it["t"] == "keep" and rng.random() < (0.9 if feat.get("layout") else 0.5):
                     it["join"] = True
+                    if feat.get("layout") and i > 0 and f["body"][i - 1]["t"] in ("var", "ext", "extvar"):
+                        # the line the keep starts on holds a call: swap in an earlier call statement if there is one
+                        # (locals are renamed by position: run-time expressions are re-pointed below)
+                        js = [j for j in range(i - 1) if f["body"][j]["t"] in ("call", "ho", "shadow")]
+                        if js:
+                            j = rng.choice(js)
+                            f["body"][j], f["body"][i - 1] = f["body"][i - 1], f["body"][j]
     return prog
 
 
@@ -268,12 +275,19 @@ def _add_ref(prog, caller, callee, rng, feat, paths):
                 continue
             rt = feat["rt_args"] and rng.random() < (0.7 if any(ir.default_var(d2) for (_, d2) in g["params"]) else 0.4)
             if lay and len(g["params"]) > 1:
-                rt = not any(a["k"] in ("rt", "kwrt") for a in it["args"])    # first bound argument run-time, the rest literal
+                rt = False      # (the last bound argument becomes the run-time one, below)
             if kwmode or (feat["kwargs"] and rng.random() < 0.3):
                 kwmode = True
                 it["args"].append({"k": "kwrt", "n": pn, "e": "?"} if rt else {"k": "kw", "n": pn, "v": _lit(rng, feat)})
             else:
                 it["args"].append({"k": "rt", "e": "?"} if rt else {"k": "lit", "v": _lit(rng, feat)})
+        if lay and len(it["args"]) > 1:
+            # literal arguments first, the run-time one on the last line of the call
+            a = it["args"][-1]
+            if a["k"] == "lit":
+                it["args"][-1] = {"k": "rt", "e": "?"}
+            elif a["k"] == "kw":
+                it["args"][-1] = {"k": "kwrt", "n": a["n"], "e": "?"}
         c["body"].append(it)
     elif g["kind"] == "class":
         c["body"].append({"t": "call", "f": callee, "form": form if form in ("direct", "from", "alias") else "from",
